@@ -182,6 +182,13 @@ pub fn handle(op: &str, a: &[&str]) -> Option<String> {
         ("c12-frame", [e, kind, asz, h]) => Some(c12_frame(endian(e)?, *kind == "eh", asz.parse().ok()?, &unhex(h)?)),
         // expression component (c12/expr.rs); the map argument is for the Model only
         ("c12-expr", [e, asz, fmt, ver, x, _map, addr]) => Some(c12_expr(endian(e)?, ex_encoding(asz, fmt, ver)?, &unhex(x)?, &unhex(addr)?)),
+        ("c12-vtexpr", [e, asz, fmt, ver, x, _map, addr]) => {
+            let (e, enc, x, addr) = (endian(e)?, ex_encoding(asz, fmt, ver)?, unhex(x)?, unhex(addr)?);
+            EX_AT.with(|c| c.set(gimli::DW_AT_vtable_elem_location));
+            let reply = c12_expr(e, enc, &x, &addr);
+            EX_AT.with(|c| c.set(gimli::DW_AT_location));
+            Some(reply)
+        }
         // debugging aid: the map argument of c12-expr for an encoding
         ("c12-exprmap", [e, asz, fmt, ver]) => Some(format!("ok {}", ex_map(ex_encoding(asz, fmt, ver)?, endian(e)?)?)),
         _ => None,
